@@ -123,7 +123,7 @@ def oracle(ctx, deep):
                 w = core.unhx(x)
                 if len(w) >= 3:
                     secrets.append(("a word of the list", w))
-        check(a, secrets, {"case": c["meta"], "line": wlgen.wlgen_line(c["list"], c["length"], c["sep"], c["cap"], c["budget"], c["words"]), "observed": a[-400:]})
+        check(a, secrets, {"case": c["meta"], "line": wlgen.wlgen_line(c["list"], c["length"], c["sep"], c["cap"], c["budget"], c["words"], shadow=c.get("shadow")), "observed": a[-400:]})
     for c, a, b in getattr(ctx, "list_results", []):
         if a is None:
             continue
@@ -136,5 +136,6 @@ def replay(v):
     r, _ = core.run_impl([line])
     print(line[:400])
     print("->", (r.get("r") or "")[-600:])
+    core.replay_shared_list(v["line"])
     print("violation:", v["what"])
     return 1
